@@ -131,7 +131,11 @@ func applyMutant(eng *Engine, prop, pf string, known map[string]KnownFinding) mu
 		}
 		work, _ := os.MkdirTemp("", "govc-mutant-work-")
 		defer os.RemoveAll(work)
-		rs, _, errs := verifyProp(meng, prop, solveOpts{workDir: work, quickS: 5, fullS: 12, parallel: (runtime.NumCPU() + 1) / 2})
+		vp := prop
+		if prop == "all" {
+			vp = "" // every contract that carries a property tag
+		}
+		rs, _, errs := verifyProp(meng, vp, solveOpts{workDir: work, quickS: 5, fullS: 12, parallel: (runtime.NumCPU() + 1) / 2})
 		for _, r := range rs {
 			if r.Obl.Kind == "cover" {
 				continue
@@ -140,7 +144,13 @@ func applyMutant(eng *Engine, prop, pf string, known map[string]KnownFinding) mu
 				if _, ok := known[oblID(r.Obl)]; ok {
 					continue
 				}
-				mr.Failed = append(mr.Failed, oblID(r.Obl))
+				id := oblID(r.Obl)
+				if prop == "all" {
+					if c := meng.cf.Contracts[r.Obl.Func]; c != nil {
+						id += " [" + strings.Join(c.Props, ",") + "]"
+					}
+				}
+				mr.Failed = append(mr.Failed, id)
 			}
 		}
 		if len(errs) > 0 {
@@ -149,7 +159,7 @@ func applyMutant(eng *Engine, prop, pf string, known map[string]KnownFinding) mu
 		mr.Detected = len(mr.Failed) > 0
 	}()
 	mr.Seconds = time.Since(start).Seconds()
-	if len(mr.Failed) > 6 {
+	if len(mr.Failed) > 6 && prop != "all" {
 		mr.Failed = append(mr.Failed[:6], fmt.Sprintf("... and %d more", len(mr.Failed)-6))
 	}
 	return mr
